@@ -7,6 +7,8 @@
 //	          4 placements x 4 spellings, for built-in rules and a custom rule (kind "e2e")
 //	agg     : the same for aggregate rules (built-in and custom) in multi-file workspaces, one-shot and two-phase
 //	          (collect per file, WithAggregates, with and without the exported directives) (kind "agg")
+//	hist    : histories of single-file replacements through the public API: a file goes from some directives to
+//	          none and back while a client hands Report.IgnoreDirectives on (WithIgnoreDirectives) (kind "hist")
 //
 // The property predicate (which violations must disappear / stay / move) is evaluated here from the names the
 // generator put into the directive, independently of the Coq model; failures are emitted as kind "pred".
@@ -405,6 +407,8 @@ type env struct {
 	rulesDir string
 	mu       sync.Mutex
 	collects map[string]collected
+	inits    map[string]*initRun
+	oneShots map[string]*oneShotRes
 }
 
 func setupEnv(wd string) *env {
@@ -1384,6 +1388,423 @@ func e2eAggregate(e *env, r *hutil.Rng, out *hutil.Out, wss []workspace, maxTarg
 	}
 }
 
+// ---------------------------------------------------------------- histories: directives handed from run to run
+
+// A client of the public API keeps the aggregates every file exported when it was linted on its own, and ONE map of
+// ignore directives that it updates from the Report.IgnoreDirectives of every run (dirs[file] = directives).
+// A history replaces one file at a time by another version of itself; the versions of a target file differ in
+// their directives: none at all / naming the rule of an aggregate violation in the file (same line or line above)
+// / naming another rule / naming the rule on another row.  After every step two observations:
+//   report : a report-only run WithAggregates(merged per-file exports).WithIgnoreDirectives(the client's map)
+//   mixed  : the replaced file is linted by the reporting run itself, which is handed the map as it was BEFORE
+//            this replacement (stale for that file) -- the run's own directives must win, also when there are none
+// Both must equal a fresh one-shot run over the current contents.
+
+type HistStep struct {
+	File     string    `json:"file"`
+	VKind    string    `json:"vkind"` // none | rule-same | rule-above | rule-list | other | other-row | base
+	Text     string    `json:"text"`
+	Comments []Comment `json:"comments"`
+}
+
+type HistCase struct {
+	Kind         string                         `json:"kind"` // "hist"
+	WS           string                         `json:"ws"`
+	H            int                            `json:"h"`
+	Step         int                            `json:"step"`
+	Mixed        bool                           `json:"mixed"`
+	Target       *Viol                          `json:"target,omitempty"`
+	Init         map[string]string              `json:"init"`
+	InitComments map[string][]Comment           `json:"init_comments"`
+	Edits        []HistStep                     `json:"edits"` // the history up to and including the observed step
+	Files        map[string]string              `json:"files"` // contents after the history
+	Export       map[string]map[string][]string `json:"export"` // Report.IgnoreDirectives of the last run that linted files
+	Raw          []Viol                         `json:"raw"`
+	Obs          []Viol                         `json:"obs"`
+	Fresh        []Viol                         `json:"fresh"`
+	PredOK       bool                           `json:"pred_ok"`
+	Err          string                         `json:"err,omitempty"`
+}
+
+// stripDirectives removes every ignore directive: a comment line becomes a plain comment (rows are kept), a
+// trailing directive comment is cut off
+func stripDirectives(lines []string) []string {
+	out := make([]string, len(lines))
+	for i, l := range lines {
+		out[i] = l
+		idx := strings.Index(l, "regal ignore:")
+		if idx < 0 {
+			continue
+		}
+		h := strings.LastIndex(l[:idx], "#")
+		if h < 0 {
+			continue
+		}
+		if strings.TrimSpace(l[:h]) == "" {
+			out[i] = l[:h] + "# plain comment"
+		} else {
+			out[i] = strings.TrimRight(l[:h], " \t")
+		}
+	}
+	return out
+}
+
+func joinLines(ls []string) string { return strings.Join(ls, "\n") + "\n" }
+
+// versionOf builds one version of a file from its directive-free lines; ok=false when the version does not exist
+func versionOf(stripped []string, kind string, row int, title, other string) (string, bool) {
+	ls := append([]string{}, stripped...)
+	switch kind {
+	case "none":
+		return joinLines(ls), true
+	case "rule-same":
+		ls[row-1] += " # regal ignore:" + title
+	case "rule-list":
+		ls[row-1] += " # regal ignore: " + other + " ,\t" + title
+	case "other":
+		ls[row-1] += " # regal ignore:" + other
+	case "rule-above":
+		if row < 2 {
+			return "", false
+		}
+		ls = append(append(append([]string{}, ls[:row-1]...), indentOf(ls[row-1])+"# regal ignore:"+title), ls[row-1:]...)
+	case "other-row":
+		// a row that neither is the target row nor directly above it, without a comment of its own
+		u := 0
+		for i := range ls {
+			if i+1 != row && i+2 != row && !strings.Contains(ls[i], "#") && strings.TrimSpace(ls[i]) != "" {
+				u = i + 1
+				break
+			}
+		}
+		if u == 0 {
+			return "", false
+		}
+		ls[u-1] += " # regal ignore:" + title
+	default:
+		return "", false
+	}
+	return joinLines(ls), true
+}
+
+func parseComments(name, text string) ([]Comment, error) {
+	in, err := rules.InputFromMap(map[string]string{name: text}, nil)
+	if err != nil {
+		return nil, err
+	}
+	cs := commentsOf(in, name)
+	if cs == nil {
+		cs = []Comment{}
+	}
+	return cs, nil
+}
+
+type initRun struct {
+	once sync.Once
+	dirs map[string]map[string][]string
+	err  error
+}
+
+// initDirs: the first run of the client, one Lint over all files with export
+func (e *env) initDirs(files map[string]string) (map[string]map[string][]string, error) {
+	key := filesKey(files)
+	e.mu.Lock()
+	if e.inits == nil {
+		e.inits = map[string]*initRun{}
+	}
+	ir, ok := e.inits[key]
+	if !ok {
+		ir = &initRun{}
+		e.inits[key] = ir
+	}
+	e.mu.Unlock()
+	ir.once.Do(func() {
+		in, err := rules.InputFromMap(files, nil)
+		if err != nil {
+			ir.err = err
+			return
+		}
+		rep, err := e.aggLinter().WithExportAggregates(true).WithInputModules(&in).Lint(context.Background())
+		ir.dirs, ir.err = rep.IgnoreDirectives, err
+	})
+	return ir.dirs, ir.err
+}
+
+type oneShotRes struct {
+	once sync.Once
+	vs   []Viol
+	err  error
+}
+
+func filesKey(files map[string]string) string {
+	names := make([]string, 0, len(files))
+	for n := range files {
+		names = append(names, n)
+	}
+	sort.Strings(names)
+	var sb strings.Builder
+	for _, n := range names {
+		sb.WriteString(n + "\x00" + files[n] + "\x01")
+	}
+	return sb.String()
+}
+
+// oneShotMemo: the aggregate violations of one Lint over the files (the same contents are reached by several cases)
+func (e *env) oneShotMemo(files map[string]string) ([]Viol, error) {
+	k := filesKey(files)
+	e.mu.Lock()
+	if e.oneShots == nil {
+		e.oneShots = map[string]*oneShotRes{}
+	}
+	rr, ok := e.oneShots[k]
+	if !ok {
+		rr = &oneShotRes{}
+		e.oneShots[k] = rr
+	}
+	e.mu.Unlock()
+	rr.once.Do(func() { rr.vs, _, rr.err = e.oneShot(files) })
+	return append([]Viol{}, rr.vs...), rr.err
+}
+
+// runHist replays the history of c (Init, Edits) through the public API and fills in the observations of its last step
+func (e *env) runHist(c *HistCase) {
+	fail := func(err error) { c.Err = err.Error() }
+	given, err := e.initDirs(c.Init)
+	if err != nil {
+		fail(err)
+		return
+	}
+	dirs := map[string]map[string][]string{}
+	for f, d := range given {
+		dirs[f] = d
+	}
+	export := given
+	cur := map[string]string{}
+	for n, t := range c.Init {
+		cur[n] = t
+	}
+	for i, ed := range c.Edits {
+		cur[ed.File] = ed.Text
+		if c.Mixed && i == len(c.Edits)-1 {
+			break // the reporting run lints this file itself; the client's map is the one of before
+		}
+		col := e.collect(ed.File, ed.Text)
+		if col.err != nil {
+			fail(col.err)
+			return
+		}
+		for f, d := range col.dirs {
+			dirs[f] = d
+		}
+		export = col.dirs
+	}
+	merged := map[string][]report.Aggregate{}
+	names := make([]string, 0, len(cur))
+	for n := range cur {
+		names = append(names, n)
+	}
+	sort.Strings(names)
+	for _, n := range names {
+		col := e.collect(n, cur[n])
+		if col.err != nil {
+			fail(col.err)
+			return
+		}
+		for k, a := range col.aggs {
+			merged[k] = append(merged[k], a...)
+		}
+	}
+	l := e.aggLinter().WithAggregates(merged).WithIgnoreDirectives(dirs)
+	var wg sync.WaitGroup
+	var errObs, errFresh, errRaw error
+	wg.Add(3)
+	go func() {
+		defer wg.Done()
+		if c.Mixed && len(c.Edits) > 0 {
+			last := c.Edits[len(c.Edits)-1]
+			in, err := rules.InputFromMap(map[string]string{last.File: last.Text}, nil)
+			if err != nil {
+				errObs = err
+				return
+			}
+			rep, err := l.WithInputModules(&in).WithExportAggregates(true).Lint(context.Background())
+			if err != nil {
+				errObs = err
+				return
+			}
+			export = rep.IgnoreDirectives
+			c.Obs = violsOf(rep, func(s string) string { return s }, true)
+			return
+		}
+		rep, err := l.Lint(context.Background())
+		if err != nil {
+			errObs = err
+			return
+		}
+		c.Obs = violsOf(rep, func(s string) string { return s }, true)
+	}()
+	go func() { defer wg.Done(); c.Fresh, errFresh = e.oneShotMemo(cur) }()
+	go func() { defer wg.Done(); c.Raw, errRaw = e.oneShotMemo(defuseAll(cur)) }()
+	wg.Wait()
+	for _, err := range []error{errObs, errFresh, errRaw} {
+		if err != nil {
+			fail(err)
+			return
+		}
+	}
+	c.Files, c.Export = cur, export
+	if c.Export == nil {
+		c.Export = map[string]map[string][]string{}
+	}
+	if c.Obs == nil {
+		c.Obs = []Viol{}
+	}
+	if c.Fresh == nil {
+		c.Fresh = []Viol{}
+	}
+	if c.Raw == nil {
+		c.Raw = []Viol{}
+	}
+	c.PredOK = sameViols(c.Obs, c.Fresh)
+}
+
+func e2eHistories(e *env, r *hutil.Rng, out *hutil.Out, wss []workspace, nHist, lenHist int) {
+	var cases []*HistCase
+	for _, w := range wss {
+		if len(w.Files) < 2 {
+			continue
+		}
+		texts := wsTexts(w.Files)
+		stripped := map[string][]string{}
+		strippedTexts := map[string]string{}
+		for n, ls := range w.Files {
+			stripped[n] = stripDirectives(ls)
+			strippedTexts[n] = joinLines(stripped[n])
+		}
+		raw0, _, err := e.oneShot(strippedTexts)
+		if err != nil {
+			panic(fmt.Sprintf("workspace %s without directives: %v", w.Name, err))
+		}
+		seen := map[string]bool{}
+		var targets []Viol
+		var titles []string
+		for _, v := range raw0 {
+			if !contains(titles, v.Title) {
+				titles = append(titles, v.Title)
+			}
+			k := violKey(Viol{File: v.File, Row: v.Row, Title: v.Title})
+			if v.Row == 0 || seen[k] || v.Row > len(stripped[v.File]) || strings.Contains(stripped[v.File][v.Row-1], "#") {
+				continue
+			}
+			seen[k] = true
+			targets = append(targets, v)
+		}
+		hutil.Shuffle(r, targets)
+		targets = spreadByTitle(targets)
+		if len(targets) > nHist {
+			targets = targets[:nHist]
+		}
+		initComments := map[string][]Comment{}
+		names := make([]string, 0, len(texts))
+		for n := range texts {
+			names = append(names, n)
+		}
+		sort.Strings(names)
+		for _, n := range names {
+			cs, err := parseComments(n, texts[n])
+			must(err)
+			initComments[n] = cs
+		}
+		for h, tv := range targets {
+			tv := tv
+			other := "some-other-rule"
+			for _, t := range titles {
+				if t != tv.Title && r.Below(2) == 0 {
+					other = t
+					break
+				}
+			}
+			mkStep := func(file, kind string) (HistStep, bool) {
+				var text string
+				ok := true
+				switch {
+				case kind == "base":
+					text = texts[file]
+				case file == tv.File:
+					text, ok = versionOf(stripped[file], kind, tv.Row, tv.Title, other)
+				default:
+					text = strippedTexts[file] // another file loses its directives
+				}
+				if !ok {
+					return HistStep{}, false
+				}
+				cs, err := parseComments(file, text)
+				if err != nil {
+					return HistStep{}, false
+				}
+				return HistStep{File: file, VKind: kind, Text: text, Comments: cs}, true
+			}
+			// add, remove (the file has no directive left), add again; then a random walk over the versions, now and
+			// then replacing another file in between
+			kinds := []string{"none", "rule-same", "rule-above", "rule-list", "other", "other-row"}
+			var edits []HistStep
+			curKind := ""
+			push := func(file, kind string) {
+				if st, ok := mkStep(file, kind); ok {
+					edits = append(edits, st)
+					if file == tv.File {
+						curKind = kind
+					}
+				}
+			}
+			push(tv.File, "rule-same")
+			push(tv.File, "none")
+			push(tv.File, hutil.Choice(r, []string{"rule-same", "rule-above", "rule-list"}))
+			for guard := 0; len(edits) < lenHist && guard < 4*lenHist; guard++ {
+				if r.Below(4) == 0 {
+					var others []string
+					for _, n := range names {
+						if n != tv.File {
+							others = append(others, n)
+						}
+					}
+					push(hutil.Choice(r, others), hutil.Choice(r, []string{"none", "base"}))
+					continue
+				}
+				k := hutil.Choice(r, kinds)
+				if k == curKind || (curKind != "none" && k != "none" && r.Below(2) == 0) {
+					k = "none" // transitions to "no directive at all" are what a stale entry survives
+					if curKind == "none" {
+						continue
+					}
+				}
+				push(tv.File, k)
+			}
+			for i := range edits {
+				for _, mixed := range []bool{false, true} {
+					cases = append(cases, &HistCase{Kind: "hist", WS: w.Name, H: h, Step: i, Mixed: mixed, Target: &tv,
+						Init: texts, InitComments: initComments, Edits: edits[:i+1]})
+				}
+			}
+		}
+	}
+	var wg sync.WaitGroup
+	sem := make(chan struct{}, runtime.NumCPU()/2+1) // every case runs three lints at a time
+	for _, c := range cases {
+		wg.Add(1)
+		go func(c *HistCase) {
+			defer wg.Done()
+			sem <- struct{}{}
+			defer func() { <-sem }()
+			e.runHist(c)
+		}(c)
+	}
+	wg.Wait()
+	for _, c := range cases {
+		out.Emit(c)
+	}
+}
+
 // ---------------------------------------------------------------- main
 
 func main() {
@@ -1429,6 +1850,12 @@ func main() {
 	}
 	e2eAggregate(e, r, out, wss, maxAggT, tier != "thorough")
 	lap("aggregate e2e")
+	nHist, lenHist := 2, 7
+	if tier == "thorough" {
+		nHist, lenHist = 3, 12
+	}
+	e2eHistories(e, r, out, wss, nHist, lenHist)
+	lap("histories")
 }
 
 // corpusHelper: fixed regression inputs (corpus/C06/*.json are copied into <workdir>/corpus by the driver)
@@ -1516,6 +1943,12 @@ func replay(e *env, o *opa, out *hutil.Out, path string) {
 			c.HShift = sameViols(c.RawAfter, shiftViols(c.Raw, "m.rego", q))
 		}
 		c.PredOK = sameViols(expectedAfter(c.Before, "m.rego", c.Place, c.Target.Row, c.Names), c.After)
+		out.Emit(c)
+	case "hist":
+		var c HistCase
+		must(json.Unmarshal(rp.Case, &c))
+		c.Obs, c.Fresh, c.Raw, c.Err = nil, nil, nil, ""
+		e.runHist(&c)
 		out.Emit(c)
 	case "agg":
 		var c AggCase
